@@ -1,6 +1,7 @@
 package diff
 
 import (
+	"strconv"
 	"encoding/csv"
 	"encoding/json"
 	"fmt"
@@ -27,6 +28,9 @@ func ReplayCLI(i int, raw []byte) child.Result {
 		return child.Inconclusive(fmt.Errorf("B=%d does not divide 255", sc.B))
 	}
 	s := 255 / sc.B
+	if m, err := strconv.Atoi(os.Getenv("CLIDIFF_MULT")); err == nil && m > 1 && s*m < 1000 {
+		s *= m // larger tables (several blocks per abstract key): the worker pools of the command have work to share
+	}
 	if allZero(sc.T1) || allZero(sc.T2) {
 		return child.Pass("-") // an empty CSV cannot be committed through the command line
 	}
@@ -39,18 +43,29 @@ func ReplayCLI(i int, raw []byte) child.Result {
 	if err != nil {
 		return child.Inconclusive(err)
 	}
+	// every other pair is given to `wrgl diff` as two CSV FILES (ingested by the command into its in-memory
+	// store, with the worker count of the command line), the others as two committed branches
+	files := i%2 == 1 || os.Getenv("CLIDIFF_FILES") != ""
+	args := []string{"diff", "b1", "b2", "--no-gui"}
 	for bi, t := range [][]int{sc.T1, sc.T2} {
 		rows := append([][]string{header2}, scaledRows(t, s)...)
 		fp, _ := r.WriteFile(fmt.Sprintf("t%d.csv", bi+1), tbl.CSV(rows, 0))
+		if files {
+			args[bi+1] = fp
+			continue
+		}
 		if out, err := r.Run(nil, "commit", fmt.Sprintf("b%d", bi+1), fp, "t", "-n", "1", "-p", header2[0]); err != nil {
 			return child.Inconclusive(fmt.Errorf("commit: %v %s", err, out))
 		}
+	}
+	if files {
+		args = append(args, "-p", header2[0], "-n", "8")
 	}
 	old, _ := os.Getwd()
 	if err := os.Chdir(work); err != nil {
 		return child.Inconclusive(err)
 	}
-	out, runErr := r.Run(nil, "diff", "b1", "b2", "--no-gui")
+	out, runErr := r.Run(nil, args...)
 	os.Chdir(old)
 	if runErr != nil {
 		return child.Fail("diff/cli/error", map[string]interface{}{"error": runErr.Error(), "output": out})
@@ -100,6 +115,9 @@ func ReplayCLI(i int, raw []byte) child.Result {
 				"expected": len(exp[k]), "observed": len(got[k]), "output": out,
 				"first_expected": first(exp[k]), "first_observed": first(got[k])})
 		}
+	}
+	if files {
+		return child.Pass("cli-files")
 	}
 	return child.Pass("cli")
 }
